@@ -383,6 +383,12 @@ func init() {
 	// ---------------------------------------------------------------- C01
 	register(&Prop{ID: "C01",
 		Gen: func(r *RNG, tier string, run int) *Trace {
+			if run%401 == 7 {
+				return genBigWrite(r) // first Write of 1 MiB and more
+			}
+			if run%53 == 9 {
+				return genLongMatch(r, parserTypes) // long match stratum
+			}
 			pg := defaultPGen()
 			pg.plan = planOpts{chunk: true, faults: r.Chance(0.3)}
 			pg.flagBits = 0.03
@@ -419,6 +425,9 @@ func init() {
 	// ---------------------------------------------------------------- C02
 	register(&Prop{ID: "C02",
 		Gen: func(r *RNG, tier string, run int) *Trace {
+			if run%53 == 9 {
+				return genLongMatch(r, parserTypes) // long match stratum
+			}
 			if run%1597 == 11 {
 				return genHaulTrace(r, "wrap", false) // volume stratum
 			}
@@ -454,6 +463,9 @@ func init() {
 	// ---------------------------------------------------------------- C03
 	register(&Prop{ID: "C03",
 		Gen: func(r *RNG, tier string, run int) *Trace {
+			if run%53 == 9 {
+				return genLongMatch(r, parserTypes) // long match stratum
+			}
 			if run%1597 == 11 || run%1597 == 811 {
 				return genHaulTrace(r, "direct", false) // volume stratum
 			}
@@ -505,6 +517,9 @@ func init() {
 	// ---------------------------------------------------------------- C15
 	register(&Prop{ID: "C15",
 		Gen: func(r *RNG, tier string, run int) *Trace {
+			if run%401 == 7 {
+				return genBigWrite(r) // first Write of 1 MiB and more
+			}
 			if run%1597 == 11 || run%1597 == 811 {
 				return genHaulTrace(r, "direct", true) // volume stratum with buffer probes
 			}
@@ -540,6 +555,9 @@ func init() {
 	// ---------------------------------------------------------------- C19
 	register(&Prop{ID: "C19",
 		Gen: func(r *RNG, tier string, run int) *Trace {
+			if run%53 == 9 {
+				return genLongMatch(r, []string{"HP", "BHP", "DHP", "BDHP", "BUP", "GSAP"}) // long match stratum
+			}
 			if run%1597 == 11 {
 				return genHaulTrace(r, "direct", false) // volume stratum
 			}
@@ -582,6 +600,9 @@ func init() {
 	// ---------------------------------------------------------------- C12
 	register(&Prop{ID: "C12",
 		Gen: func(r *RNG, tier string, run int) *Trace {
+			if run%53 == 9 {
+				return genLongMatch(r, []string{"GSAP"}) // long match stratum
+			}
 			pg := defaultPGen()
 			pg.wReadAt = 0
 			pg.nOps = 40
@@ -866,4 +887,141 @@ func init() {
 		MustFire: []string{"bl_gt_ws", "default_buffer", "seq_gt_ws", "block_with_seq", "decoder_drained"},
 		Rule:     "pipe world: every parser type, any BlockSize incl. > WindowSize, long runs, paired with Decoder{WindowSize: W, BufferSize: 0 or random > W}; plus synthetic well-formed block streams fed to a Decoder; non-trivial = a block with a sequence and a decoder drain",
 		Quick:    16000, Thorough: 480000, Real: append(realParser, realDecoder...), Stub: append(stubParser, stubDecoder...)})
+}
+
+// genLongMatch is the "long match" stratum: streams built so that a single
+// match of 64 KiB and more is available (a record of 64..140 KiB occurring
+// twice, adjacent or apart, with a nearer shorter copy in between, or a byte
+// run of that length), with lengths at and next to multiples of 65536, the
+// repeat at, next to and beyond the window limit, a run that starts exactly
+// on a block boundary behind 64 KiB and more of incompressible data, and a
+// short self-repeating head in front of more than 2^18 bytes. One Write or
+// ReadFrom of everything, then Parse to the end.
+func genLongMatch(r *RNG, types []string) *Trace {
+	typ := types[r.Intn(len(types))]
+	L := r.Pick(65535, 65536, 65537, 65538, 65539, 70000, 100000, 131072, 131073, 131074)
+	if r.Chance(0.2) {
+		L = r.Range(60000, 140000)
+	}
+	if typ == "OSAP" {
+		L = r.Pick(65535, 65536, 65537, 66000) // its path search costs n x MaxMatchLen
+	}
+	X := genInput(r, L, r.pickStr("iid256", "iid256", "iid256", "copyback256", "iid16"))
+	pre := genInput(r, r.Pick(0, 1, 7, 100, 100, 3000), r.pickStr("iid256", "copyback", "periodic", "iid2"))
+	tail := genInput(r, r.Pick(0, 1, 2, 3, 8, 300), "iid256")
+	mid := genInput(r, r.Pick(0, 0, 1, 100, 5000), "iid256")
+	B := r.Pick(0, 1<<16, 1<<16, 1<<16+1, 1<<17, L+5, 2*L, 4096)
+	var in []byte
+	dist := L // distance of the long repeat
+	layout := r.Intn(6)
+	switch layout {
+	case 0: // adjacent repeat
+		in = append(append(append(in, pre...), X...), X...)
+	case 1: // repeat with a gap
+		in = append(append(append(append(in, pre...), X...), mid...), X...)
+		dist = L + len(mid)
+	case 2: // a farther full copy and a nearer shorter one
+		l2 := r.Pick(65536, 65537, 65600, L-1, L/2)
+		if l2 >= L || l2 < 1 {
+			l2 = L / 2
+		}
+		in = append(append(append(append(append(in, pre...), X...), mid...), X[:l2]...), byte(r.Intn(256)))
+		in = append(in, X...)
+		dist = L + len(mid) + l2 + 1
+	case 3: // a byte run
+		c := byte(r.Intn(256))
+		in = append(in, pre...)
+		for i := 0; i < L+r.Intn(4); i++ {
+			in = append(in, c)
+		}
+		dist = 1
+	case 4: // incompressible blocks, then a run that starts on a block boundary
+		bl := B
+		if bl == 0 {
+			bl = 128 << 10
+		}
+		if bl > 1<<17 {
+			bl, B = 1<<16, 1<<16
+		}
+		k := (65536+bl-1)/bl + r.Intn(2)
+		in = append(in, genInput(r, k*bl, "iid256")...)
+		c := byte(r.Intn(256))
+		for i := 0; i < 2*bl+r.Intn(40); i++ {
+			in = append(in, c)
+		}
+		dist = 1
+	default: // X twice behind a head that repeats itself
+		head := genInput(r, r.Pick(12, 40, 200), r.pickStr("copyback", "periodic", "iid2"))
+		in = append(append(append(in, head...), X...), X...)
+	}
+	in = append(in, tail...)
+	n := len(in)
+	if B > n {
+		B = n
+	}
+	spec := ParserSpec{Type: typ, BufferSize: n + r.Pick(0, 1, 8, 1000, n), BlockSize: B, ShrinkSize: r.Pick(0, 1, 4096)}
+	spec.WindowSize = r.Pick(spec.BufferSize, spec.BufferSize, spec.BufferSize, 0, dist, dist, dist-1, dist+1, 1<<16, 1<<16+1, L/2)
+	if spec.WindowSize < 8 {
+		spec.WindowSize = spec.BufferSize
+	}
+	if spec.ShrinkSize >= spec.BufferSize {
+		spec.ShrinkSize = 0
+	}
+	spec.HashBits, spec.HashBits1, spec.HashBits2 = r.Pick(0, 14, 16, 18), r.Pick(0, 12, 16), r.Pick(0, 14, 18)
+	spec.InputLen = r.Pick(0, 0, 3, 4, 6)
+	if typ == "BUP" {
+		spec.HashBits, spec.BucketSize = r.Pick(12, 14, 16), r.Pick(0, 2, 4, 10, 16)
+	}
+	if typ == "GSAP" || typ == "OSAP" {
+		spec.MinMatchLen = r.Pick(0, 2, 3)
+	}
+	if typ == "OSAP" {
+		spec.MaxMatchLen = r.Pick(0, 0, 273, 64)
+	}
+	t := &Trace{World: "parser", P: &spec, Input: in}
+	t.Note = fmt.Sprintf("long-match layout=%d L=%d dist=%d", layout, L, dist)
+	t.Ops = append(t.Ops, Op{K: r.pickStr("Write", "Write", "ReadFrom"), N: n})
+	bl := B
+	if bl == 0 {
+		bl = 128 << 10
+	}
+	for i := n/bl + 3; i > 0; i-- {
+		t.Ops = append(t.Ops, Op{K: "Parse", Re: r.Chance(0.8)})
+	}
+	return t
+}
+
+// genBigWrite: a parser with a buffer of 1 to 3 MiB whose first Write (and the
+// first Write after Reset(nil)) hands over 1 MiB and more in one slice, with
+// probes of the retained bytes after each step.
+func genBigWrite(r *RNG) *Trace {
+	typ := r.pickStr("HP", "BHP", "DHP", "BDHP", "BUP")
+	bs := r.Pick(1<<20, 1<<20+1, 1<<20+7, 1<<20+8, 3<<19, 2<<20, 3<<20)
+	spec := ParserSpec{Type: typ, BufferSize: bs, WindowSize: r.Pick(0, bs, 1<<16, 1<<20), BlockSize: r.Pick(0, 1<<16, 1<<17),
+		ShrinkSize: r.Pick(0, 1, 1<<16, bs/2), HashBits: r.Pick(10, 12, 14), HashBits1: r.Pick(8, 12), HashBits2: r.Pick(10, 14), BucketSize: r.Pick(2, 4)}
+	if spec.WindowSize != 0 && spec.WindowSize > bs {
+		spec.WindowSize = bs
+	}
+	n := bs + r.Intn(bs/2)
+	t := &Trace{World: "parser", P: &spec, Input: genInput(r, n, r.pickStr("iid256", "copyback256", "iid16", "runs"))}
+	t.Note = "big first write"
+	first := r.Pick(1<<20, 1<<20-1, 1<<20+1, bs, bs-7, bs-8, bs+1)
+	probe := func(k int) {
+		for ; k > 0; k-- {
+			t.Ops = append(t.Ops, genReadAtOp(r, bs))
+		}
+	}
+	t.Ops = append(t.Ops, Op{K: "Write", N: first})
+	probe(3)
+	for i := r.Intn(4); i > 0; i-- {
+		t.Ops = append(t.Ops, Op{K: "Parse", Re: true})
+	}
+	probe(2)
+	t.Ops = append(t.Ops, Op{K: "Shrink"}, Op{K: "Write", N: r.Pick(1, 1000, 1<<16, bs)})
+	probe(2)
+	t.Ops = append(t.Ops, Op{K: "Parse", Re: true}, Op{K: "Reset"}, Op{K: "Write", N: r.Pick(1<<20, 1<<20+2, bs)})
+	probe(3)
+	t.Ops = append(t.Ops, Op{K: "Parse", Re: true}, Op{K: "Parse", Re: true})
+	probe(2)
+	return t
 }
